@@ -1259,3 +1259,103 @@ theorem withMembers_isNone {ex : Option Extra} {k : Keys} (h : (withMembers ex k
   · cases ex <;> simp at h
 
 end Geo
+
+namespace Geo
+theorem parseTyped_Point (o g k) : parseTyped o g k "Point" = parsePointK o g k := by simp [parseTyped]
+theorem parseTyped_LineString (o g k) : parseTyped o g k "LineString" = parseLineStringK o g k := by simp [parseTyped]
+theorem parseTyped_Polygon (o g k) : parseTyped o g k "Polygon" = parsePolygonK o g k := by simp [parseTyped]
+theorem parseTyped_MultiPoint (o g k) : parseTyped o g k "MultiPoint" = parseMultiPointK o g k := by simp [parseTyped]
+theorem parseTyped_MultiLineString (o g k) : parseTyped o g k "MultiLineString" = parseMultiLineStringK o g k := by simp [parseTyped]
+theorem parseTyped_MultiPolygon (o g k) : parseTyped o g k "MultiPolygon" = parseMultiPolygonK o g k := by simp [parseTyped]
+theorem parseTyped_GeometryCollection (o g k) : parseTyped o g k "GeometryCollection" = parseGeometryCollectionK o g k := by simp [parseTyped]
+theorem parseTyped_FeatureCollection (o g k) : parseTyped o g k "FeatureCollection" = parseFeatureCollectionK o g k := by simp [parseTyped]
+theorem parseTyped_Feature (o g k) : parseTyped o g k "Feature" = parseFeatureK o g k := by simp [parseTyped]
+end Geo
+
+namespace Geo
+theorem withMembers_mk (ex : Option Extra) (t c gs g fs : Option JVal) (k : Keys) :
+    withMembers ex { type := t, coordinates := c, geometries := gs, geometry := g, features := fs,
+                     foreign := k.foreign } = withMembers ex k :=
+  withMembers_congr ex rfl
+end Geo
+
+namespace Geo
+/-- what the Circle branch of the Feature parser needs from a point-like base: token texts and
+    the validity check the Point parser performed -/
+def CentreOK (o : POpts) : Obj → Prop
+  | .point pos _ => IsNumTok pos.xs.toList ∧ IsNumTok pos.ys.toList ∧
+      (o.requireValid && !(pos.fin && pos.p.valid)) = false
+  | .spoint pos => IsNumTok pos.xs.toList ∧ IsNumTok pos.ys.toList ∧
+      (o.requireValid && !(pos.fin && pos.p.valid)) = false
+  | _ => True
+
+section
+variable (vf : String → Rat) (kf : String → String)
+include vf kf
+
+theorem reparse_point (o : POpts) (f : Nat) (k : Keys) (x : Obj) (h : parsePointK o f k = .ok x)
+    (hc : ∀ v, k.coordinates = some v → v.DocOK) (hfd : DocOKM k.foreign)
+    (hns : ∀ m ∈ k.foreign, isSpecialKey m.2.1 = false) (hfin : AllFin x) :
+    ∃ v, Written x v ∧ CentreOK o x ∧ ∀ g, parse o (g + 1) v = .ok x := by
+  unfold parsePointK at h
+  cases hco : k.coordinates with
+  | none => simp [hco] at h
+  | some rc =>
+    simp only [hco] at h
+    by_cases ha : rc.isArray = true
+    · simp only [ha, Bool.not_true, Bool.false_eq_true, if_false] at h
+      cases hp : parsePointCoords rc with
+      | error e => simp [hp] at h
+      | ok res =>
+        obtain ⟨pos, ex0⟩ := res
+        simp only [hp] at h
+        generalize hob : (if ((withMembers ex0 k).isNone && o.allowSimplePoints) = true then Obj.spoint pos
+                else Obj.point pos (withMembers ex0 k)) = ob at h
+        by_cases hvalid : (o.requireValid && !ob.valid) = true
+        · rw [if_pos hvalid] at h; cases h
+        · rw [if_neg hvalid, Except.ok.injEq] at h
+          subst h
+          have h := hob
+          have hd := hc rc hco
+          -- finiteness of pos / ex0
+          have hfin' : pos.fin = true ∧ ExFin ex0 := by
+            rw [← h] at hfin
+            split at hfin
+            · rename_i hsp
+              simp only [Bool.and_eq_true] at hsp
+              exact ⟨hfin, by rw [(withMembers_isNone hsp.1).1]; trivial⟩
+            · exact ⟨hfin.1, ExFin_withMembers hfin.2⟩
+          obtain ⟨ts, hl, rfl, htok, hx, hy⟩ := parsePointCoords_fwd hp hd hfin'.1 hfin'.2
+          have hexm : exMembers' (pointEx ts) = "" := by unfold pointEx; split <;> rfl
+          have hposV : ∀ ex', (∀ i, extrasAt ex' i = extrasAt (pointEx ts) i) →
+              PosV pos ex' 0 (posNode vf kf pos ts) := fun ex' he =>
+            posV_posNode vf kf hx hy (by rw [he, extrasAt_pointEx]) htok
+          refine ⟨mkObj "Point" "coordinates" (posNode vf kf pos ts) k.foreign, ?w, ?c, ?r⟩
+          case c =>
+            rw [← h]
+            have hv : (o.requireValid && !(pos.fin && pos.p.valid)) = false := by
+              rw [← h] at hvalid
+              split at hvalid <;> simpa [Obj.valid] using hvalid
+            split <;> exact ⟨hx, hy, hv⟩
+          · rw [← h]
+            split
+            · rename_i hsp
+              simp only [Bool.and_eq_true] at hsp
+              obtain ⟨hex0, hfor⟩ := withMembers_isNone hsp.1
+              rw [hfor]
+              refine ⟨_, hposV none (fun i => by rw [hex0]), rfl⟩
+            · exact ⟨_, _, hposV _ (extrasAt_withMembers _ _), membersV_withMembers hexm hfd, rfl⟩
+          · intro g
+            rw [parse_mkObj_coords o g "Point" _ _ hns]
+            rw [parseTyped_Point]
+            unfold parsePointK
+            simp only [posNode, JVal.isArray, Bool.not_true, Bool.false_eq_true, if_false]
+            have := parsePointCoords_nodes vf kf pos ts hl hfin'.1
+            simp only [posNode] at this
+            rw [this]
+            simp only
+            simp only [withMembers_mk, h, hvalid]
+            rfl
+    · simp [ha] at h
+end
+end Geo
